@@ -420,6 +420,7 @@ class Ctx(object):
         self.timeout_ms = self.opts.get('timeout_ms', 20000)
         self.float_failures = []
         self._lit_cache = {}
+        self._label_count = {}
 
     # -- inputs --------------------------------------------------------------
     def var(self, name, lo=None, hi=None, pos=False, nonzero=False):
@@ -497,6 +498,10 @@ class Ctx(object):
     # -- obligations -----------------------------------------------------------
     def eq(self, lhs, rhs, label=''):
         """obligation lhs == rhs (scalars or arrays)"""
+        k = self._label_count.get(label, 0)
+        self._label_count[label] = k + 1
+        if k:
+            label = '%s#%d' % (label, k)
         if self.mode == 'float':
             a = np.asarray(lhs, dtype=complex)
             b = np.asarray(rhs, dtype=complex)
